@@ -178,12 +178,12 @@ func writerDispatch(r *vh.Run) {
 			}
 			t.keys, t.kids = ks, vs
 		}
-		if kind != "lazy" && isTopSig(t) && !(len(t.keys) > 0 && t.keys[0] == "ByteRange") {
+		if isTopSig(t) && !(len(t.keys) > 0 && t.keys[0] == "ByteRange") {
 			// writeDictObject prints signature dictionaries through sigDictPDFString, which needs
 			// ByteRange/Filter/SubFilter: only well-formed ones at the top level
 			t = sigDictTree(r)
 		}
-		if kind == "obj" && (t.kind == 'n' || t.kind == 'R') { // an xref entry never holds null-as-object or a bare reference
+		if t.kind == 'R' || (kind == "obj" && t.kind == 'n') { // an xref entry never holds null-as-object or a bare reference
 			t = &tnode{kind: 'i', z: 3}
 		}
 		var o types.Object
@@ -215,7 +215,13 @@ func writerDispatch(r *vh.Run) {
 			osd.Content = data
 			o = types.NewLazyObjectStreamObject(osd, 0, -1, func(_ context.Context, s string) (types.Object, error) { return model.ParseObject(&s) })
 		}
-		ctx, buf := newWriteCtx(objNr, gen, o, key, rev)
+		// without a key nothing is enciphered and the lazy fast path copies the member verbatim
+		keyed := r.Rand.Intn(5) != 0
+		wkey := key
+		if !keyed {
+			wkey = nil
+		}
+		ctx, buf := newWriteCtx(objNr, gen, o, wkey, rev)
 		var err error
 		if kind == "lazy" || r.Rand.Intn(2) == 0 {
 			err = guard(func() error { return pdfcpu.VerifC23WriteIndirectObject(ctx, *types.NewIndirectRef(objNr, gen)) })
@@ -229,8 +235,8 @@ func writerDispatch(r *vh.Run) {
 		} else if strings.HasPrefix(err.Error(), "PANIC") {
 			res = "panic:" + err.Error()
 		}
-		r.Case("writeIobj", []string{kind, t.ser(), filters, rawHex, "false", vh.Int(int64(objNr)), vh.Int(int64(gen)), vh.Hex(key), vh.Int(int64(rev))}, res)
-		r.Count("class:writer-" + kind)
+		r.Case("writeIobj", []string{kind, t.ser(), filters, rawHex, "false", vh.Int(int64(objNr)), vh.Int(int64(gen)), vh.Hex(key), vh.Int(int64(rev)), vh.Bool(keyed)}, res)
+		r.Count("class:writer-" + kind + map[bool]string{true: "-keyed", false: "-nokey"}[keyed])
 	}
 }
 
